@@ -97,7 +97,7 @@ def rule_helper_prov_for(pid=None):
                     r.info.setdefault("new_unjudged", []).append(key)
                     n -= 1
                     continue
-                ok = want is not None and sorted(want) == got
+                ok = want is not None and (sorted(want) == got or __import__("nf").equal_up_to_renaming(got, want))
                 r.ob(ok)
                 if len(r.samples) < 4:
                     r.samples.append({key: got})
